@@ -116,7 +116,7 @@ func ObserveBool(label string, v bool) {
 		ev("obs", label, "0")
 	}
 }
-func ObserveBytes(label string, v []byte) { ev("obs", label, fmt.Sprintf("%x", v)) }
+func ObserveBytes(label string, v []byte)  { ev("obs", label, fmt.Sprintf("%x", v)) }
 func ObserveString(label string, v string) { ev("obs", label, fmt.Sprintf("%x", v)) }
 
 // UF is an uninterpreted function over byte strings. Natively its outputs are
